@@ -79,5 +79,10 @@ end PyTrie.Keccak
 
 namespace PyTrie
 /-- Keccak-256 as used by `eth_hash.auto.keccak` -/
-def keccak (b : List UInt8) : List UInt8 := Keccak.keccak256 b
+def keccak (b : List UInt8) : List UInt8 := ((Keccak.keccak256 b) ++ List.replicate 32 0).take 32
+
+/-- the digest has exactly 32 bytes (the sponge above always squeezes 32; the `take` makes that
+    evident to the kernel without unfolding the permutation) -/
+theorem keccak_length (b : List UInt8) : (keccak b).length = 32 := by
+  simp [keccak]
 end PyTrie
